@@ -27,9 +27,9 @@ CHECKS = {
    design="4 (C03), 3.6"),
  "C01": dict(
    level="model_checking",
-   text="Tunnel models one bridged connection as two byte streams (written / in flight / delivered counters, close, abort, end-of-stream) plus the token bucket; TLC exhaustively checks PrefixIntegrity, EofOnlyAfterClose, CompleteBeforeEof and, under weak fairness, EventuallyDelivered and ClosePropagates for a reliable and a lossy-at-close transport. Real frps / frpc pairs (plus a visitor frpc for stcp) are then run over seeded points of the option lattice (kind tcp/stcp/https/tcpmux/xtcp-falling-back-to-stcp x encryption x compression x limit none/client/server x mux x transport tcp/websocket/kcp/quic x tls x pool x proxy-protocol x shared vhost port), two proxies with distinct backends each; every user connection carries self-describing generator streams in both directions with four close patterns; the end state of each connection is one observed Tunnel state on which TLC evaluates the same invariants, the bounded-time forms of the liveness properties, cross-wiring, the proxy-protocol header and the token-bucket bound on delivery samples (Trace_Tunnel).",
+   text="Tunnel models one bridged connection as two byte streams (written / in flight / delivered counters, close, abort, end-of-stream) plus the token bucket; TLC exhaustively checks PrefixIntegrity, EofOnlyAfterClose, CompleteBeforeEof and, under weak fairness, EventuallyDelivered and ClosePropagates for a reliable and a lossy-at-close transport. Limiter models the token bucket in discrete time and the Write / Read loops of pkg/util/limit (ReturnsAll, ChunksBounded, RateBound, Terminates; the deviation 'Write reports the last chunk' must be caught) and the real limit.Writer / limit.Reader are called on the enumerated grid and in timed runs (Trace_Limiter). Real frps / frpc pairs (plus a visitor frpc for stcp) are then run over seeded points of the option lattice (kind tcp/stcp/https/tcpmux/xtcp-falling-back-to-stcp x encryption x compression x limit none/client/server x mux x transport tcp/websocket/kcp/quic x tls x pool x proxy-protocol x shared vhost port), two proxies with distinct backends each; every user connection carries self-describing generator streams in both directions with four close patterns; the end state of each connection is one observed Tunnel state on which TLC evaluates the same invariants, the bounded-time forms of the liveness properties, cross-wiring, the proxy-protocol header and the token-bucket bound on delivery samples (Trace_Tunnel).",
    note="Trusted: TLC, the stream generators / checkers of the driver, wall-clock bounds (8 s close propagation, 25 s delivery, rate slack 300 ms x rate + 128 KiB). The option lattice is sampled (16 configurations quick, 96 thorough), not enumerated; xtcp hole punching itself is not driven (the visitor's fall-back to stcp is).",
-   technique="TLA+ spec Tunnel model-checked with TLC (safety + liveness) + validation of observed end states of real frps/frpc tunnel connections (Trace_Tunnel)",
+   technique="TLA+ specs Tunnel and Limiter model-checked with TLC (safety + liveness + deviation) + validation of observed end states of real frps/frpc tunnel connections (Trace_Tunnel) and of calls of the real limiter (Trace_Limiter)",
    design="4 (C01), 3.5"),
  "C09": dict(
    level="model_checking",
